@@ -223,6 +223,30 @@ pub fn monitor(rng: &mut Rng, n: usize, rep: &mut crate::mon::Report) {
             }
             reported = None;
         }
+        // the reported confidence interval (95 %: 2.12 x conf for Pyth, 1.96 x std-dev for Switchboard) must be
+        // within the bank's maximum (default 10 %) of the price whenever a biased price is handed out
+        if bias != BigInt::from(0) && *kind != BigInt::from(0) {
+            if let Some(p) = &reported {
+                let mc = &t[4];
+                let conf_bits: BigInt = if *kind == BigInt::from(1) {
+                    let tw = t[2] != BigInt::from(0);
+                    let raw = if tw { &t[14] } else { &t[12] };
+                    let expo: i64 = t[15].to_string().parse().unwrap();
+                    let num = raw * &one;
+                    let c = if expo >= 0 { num * BigInt::from(10u8).pow(expo as u32) } else { num / BigInt::from(10u8).pow((-expo) as u32) };
+                    (c * BigInt::from(596726950626591i128)) >> 48u32
+                } else {
+                    let c = (&t[10] * &one) / BigInt::from(10u8).pow(18);
+                    (c * BigInt::from(551690954352886i128)) >> 48u32
+                };
+                // max = price * mc / u32::MAX   (mc = 0: 10 %)
+                let max_bits: BigInt = if *mc > BigInt::from(0) { (p * mc) / BigInt::from(u32::MAX) } else { p / BigInt::from(10) };
+                if conf_bits > &max_bits + BigInt::from(16) {
+                    rep.fail(format!("C09 a biased price was handed out although the confidence interval {} exceeds the bank's maximum {} of the price: {}", conf_bits, max_bits, lhs));
+                }
+                rep.bump("conf_checked");
+            }
+        }
         if let Some(p) = reported {
             let tol = BigInt::from(4); // truncations of the conversion chain, in ulps
             let five_pct = (&p * BigInt::from(14073748835533i128)) >> 48u32;
